@@ -1,10 +1,16 @@
-(** C07 - Registering a filter never changes what it selects (level: partial).  Proved on
-    the model: registration stores the original filter with exactly the tables the
-    unregistered filter selects at that moment; unregistration returns the original filter
-    and leaves all other entries in place; neither touches tables or nodes.  That the list
-    stays equal to the uncached selection under later table creation / retirement / reset
-    is decided by the correspondence run (every cached scan is paired with an uncached one). *)
-From Arche Require Import Model.Base Model.Filter Model.World Model.Ops Proofs.Misc.
+(** C07 - Registering a filter never changes what it selects.  Proved on the model:
+    registration stores the original filter with exactly the tables the unregistered
+    filter selects at that moment; unregistration returns the original filter and leaves
+    all other entries in place; and the CACHE INVARIANT - every registered filter lists,
+    without repetition, exactly the tables an uncached evaluation of the same filter
+    selects NOW - is kept by table creation, LIFO re-use, retirement, cleanup, entity
+    moves, entity creation/removal and component registration, hence holds after every
+    history of single-entity operations and (un)registrations from a new world
+    ([C07_every_history]).  A query through a registered filter therefore visits exactly
+    the alive entities matching the original filter, each once.  Batch operations and
+    Reset: correspondence run (every cached scan is paired with an uncached one). *)
+From Arche Require Import Model.Base Model.Filter Model.World Model.Ops Proofs.Misc Proofs.Cursor
+  Proofs.Store Proofs.WorldInv Proofs.RelGraph Proofs.RelWorld Proofs.RelRefine Proofs.QueryExact Proofs.CacheInv.
 
 Theorem C07_register : forall w f,
   let '(w', id) := cache_register w f in
@@ -17,4 +23,40 @@ Theorem C07_unregister : forall w id w' f,
   (forall e, e ∈ w_cache w' -> e ∈ w_cache w) /\ w_tables w' = w_tables w /\ w_nodes w' = w_nodes w.
 Proof. exact cache_unregister_original. Qed.
 
+
+(** The invariant and its consequences. *)
+Theorem C07_step : forall w A o,
+  R w A -> cache_ok w -> op_pre2 A o ->
+  R (fst (fst (step w o))) (astep A o (snd (fst (step w o)))) /\ cache_ok (fst (fst (step w o))).
+Proof. exact cache_step. Qed.
+
+Theorem C07_every_history : forall ops w A,
+  R w A -> cache_ok w -> pre_run2 w A ops ->
+  R (run w ops) (snd (arun w A ops)) /\ cache_ok (run w ops).
+Proof. exact cache_history. Qed.
+
+Theorem C07_cached_query_exact : forall capinc relcapinc tb ops ce b l,
+  0 < capinc -> pre_run2 (world_init capinc relcapinc tb) a_init ops ->
+  let w := run (world_init capinc relcapinc tb) ops in
+  let A := snd (arun (world_init capinc relcapinc tb) a_init ops) in
+  ce ∈ w_cache w ->
+  exists L, map (pos_ent w) (visit (S (length (enum (plain_segs w (c_tables ce))))) (fresh (plain_segs w (c_tables ce)) b l)) = map Some L /\
+    NoDup L /\ forall e, e ∈ L <-> (e ∈ as_live A /\ ent_matches w (c_filter ce) e).
+Proof. exact cached_query_exact_reachable. Qed.
+
+(** The pieces: creation (fresh or re-used table) and retirement keep the invariant. *)
+Theorem C07_create_table : forall w nid nd target fs,
+  rgraph_ok w -> cache_ok w -> w_nodes w !! nid = Some nd -> node_get_table nd target = None ->
+  cache_ok (fst (create_table w nid target fs)).
+Proof. exact cache_ok_create. Qed.
+Theorem C07_retire_table : forall w tid t nd r,
+  rgraph_ok w -> cache_ok w -> w_tables w !! tid = Some t -> w_nodes w !! t_node t = Some nd ->
+  n_rel nd = Some r -> t_active t = true -> tlen t = 0 -> cache_ok (retire_table w tid).
+Proof. exact cache_ok_retire. Qed.
+
+Example C07_nonvacuous : pre_run2 (world_init 4 4 64) a_init demo_cache_ops.
+Proof. exact demo_cache_pre. Qed.
+
 Print Assumptions C07_unregister.
+Print Assumptions C07_every_history.
+Print Assumptions C07_cached_query_exact.
